@@ -185,6 +185,21 @@ impl CidState {
         self.retire_seq
     }
 
+    /// Read-only snapshot for the verification hooks:
+    /// `(issued, prev_retire_seq, retire_seq, retire_timestamp.len(), sorted active_seq)`
+    #[cfg(quinn_rs_quinn_verif)]
+    pub(crate) fn verif_snapshot(&self) -> (u64, u64, u64, usize, Vec<u64>) {
+        let mut active: Vec<u64> = self.active_seq.iter().copied().collect();
+        active.sort_unstable();
+        (
+            self.issued,
+            self.prev_retire_seq,
+            self.retire_seq,
+            self.retire_timestamp.len(),
+            active,
+        )
+    }
+
     #[cfg(test)]
     pub(crate) fn active_seq(&self) -> (u64, u64) {
         let mut min = u64::MAX;
